@@ -17,10 +17,11 @@ from .c08 import LAYOUT_RULES, LAYOUT_TERMS
 import parglare
 from parglare.exceptions import SRConflicts, RRConflicts, ParserInitError, GrammarError
 
-RULE = ("case = (small grammar, optionally with a comment LAYOUT rule, optionally with an unproductive rule so that "
+RULE = ("case = (small grammar - random, or one that keeps two GLR heads in different states on one frontier -, optionally with a comment LAYOUT rule, optionally with an unproductive rule so that "
         "every build fails) + a history of 3-14 operations over one Grammar object: build Parser/GLRParser (LALR/SLR, "
         "with/without error recovery, strict builds that fail with conflicts) and parse (sentences, non-sentences, "
-        "inputs on which a user action raises, inputs on which a recognizer raises) on any parser built so far; every "
+        "inputs on which a user action raises, inputs on which a recognizer raises before or after another head found its token, "
+        "inputs with layout before the first token) on any parser built so far; every "
         "operation's outcome must equal the outcome of the same operation on freshly built objects; non-trivial = "
         "history with >= 1 failing parse or failed build before a compared parse (strong: a second parser built on the "
         "same grammar between two parses); distinct by (grammar, history)")
